@@ -145,31 +145,38 @@ class Driver17(Driver):
         self.dev.__class__ = Rec17
         self.dev.fail_exc = sc["config"].get("dev_fail_exc", "RuntimeError")
 
+    FORMS = ("function", "partial", "callable-object", "bound-method")
+
     def make_cb(self, i, cb):
-        if cb["raise"] == "exc" and cb.get("exc"):
-            def fn():
-                self.dev.calls.append(["cb", i])
-                for o in cb["ops"]:
-                    self.exec_op(o, inside=True)
-                raise_class(cb["exc"], "callback fault (scripted)")
-            # any callable will do as a user callback (as in sched_impl.Driver.make_cb): a functools.partial and a callable object
-            # have no __name__, a bound method is not a function - the form varies with the callback
-            form = (i + len(cb["ops"]) + len(self.sc.get("ops", []))) % 4
-            if form == 1:
-                import functools
-                return functools.partial(lambda f: f(), fn)
-            if form == 2:
-                class CallableObject:
-                    def __call__(self_inner):
-                        return fn()
-                return CallableObject()
-            if form == 3:
-                class Holder:
-                    def method(self_inner):
-                        return fn()
-                return Holder().method
-            return fn
-        return super().make_cb(i, cb)
+        """the callback in the callable form the scenario names (cb["form"]); without one, the form varies with the callback as in
+        sched_impl.Driver.make_cb.  A functools.partial and a callable object have no __name__, a bound method is not a function"""
+        def fn():
+            self.dev.calls.append(["cb", i])
+            for o in cb["ops"]:
+                self.exec_op(o, inside=True)
+            if cb["raise"] == "exc":
+                raise_class(cb.get("exc") or "ValueError", "callback fault (scripted)")
+            if cb["raise"] == "stop":
+                raise StopIteration
+        form = cb.get("form")
+        if form is None:
+            form = self.FORMS[(i + len(cb["ops"]) + len(self.sc.get("ops", []))) % 4]
+        if form == "partial":
+            import functools
+            return functools.partial(lambda f: f(), fn)
+        if form == "callable-object":
+            class CallableObject:
+                def __call__(self_inner):
+                    return fn()
+            return CallableObject()
+        if form == "bound-method":
+            class Holder:
+                def method(self_inner):
+                    return fn()
+            return Holder().method
+        if form != "function":
+            raise ValueError("bad callback form %r" % (form,))
+        return fn
 
     def event_dict(self, ev):
         k = ev["k"]
